@@ -698,16 +698,27 @@ func (h *harness) idctSection() {
 		r.Op(op, ans)
 		if kv["inrange"] == "1" {
 			r.Count("idct:in-range")
+			// every in-range block is covered by idct_block_variants_agree_in_range (Props/C09IdctRange.lean);
+			// `fit` (the older, stronger lane condition) is only counted, `fit2` is what the theorem
+			// derives from the range condition, so fit2=0 here contradicts blockInRange_imp_lanesFit2
 			if kv["fit"] == "1" {
-				r.Count("idct:in-range:lanes-fit(covered by idct_block_variants_agree)")
+				r.Count("idct:in-range:lanesFit(old condition of idct_block_variants_agree)")
 			} else {
-				r.Count("idct:in-range:lanes-do-not-fit(tested only)")
+				r.Count("idct:in-range:not-lanesFit(covered by idct_block_variants_agree_in_range only)")
+			}
+			if kv["fit2"] == "1" {
+				r.Count("idct:in-range:lanesFit2(as blockInRange_imp_lanesFit2 proves)")
+			} else {
+				r.Fail("jpeg-idct:in-range-but-lanes-overflow", "a block whose exact reconstruction stays inside -512..511 has 16-bit lanes that do not fit (lanesFit2), which blockInRange_imp_lanesFit2 proves impossible: the range/lane predicates of the harness and of the model disagree", cmd)
 			}
 			if haveAvx && kv["p"] != kv["a"] {
 				r.Fail("jpeg-idct:in-range-variants-differ", "the portable and AVX2 IDCT disagree on a block whose exact reconstruction stays inside -512..511", cmd)
 			}
 		} else {
 			r.Count("idct:out-of-range")
+			if kv["fit2"] == "1" {
+				r.Count("idct:out-of-range:lanesFit2(variants differ only by saturate-vs-wrap: idct_block_variants_differ_only_in_final_step2)")
+			}
 			if haveAvx && kv["p"] != kv["a"] {
 				r.Count("idct:out-of-range:variants-differ")
 			}
